@@ -2037,6 +2037,17 @@ func rulePeriodKept(c *Ctx) {
 				continue
 			}
 			iv := pr.Facts.Interval(prm)
+			// the test may have been made on the converted value (int64(ttl) <= 0)
+			for _, l := range pr.Conds {
+				l.Atom.walk(func(x *Term) bool {
+					if x.Op == "conv" && stripConvTerm(x).Key() == prm.Key() {
+						if iv2 := pr.Facts.Interval(x); iv2.Hi != nil && (iv.Hi == nil || iv2.Hi.Cmp(iv.Hi) < 0) {
+							iv.Hi = iv2.Hi
+						}
+					}
+					return true
+				})
+			}
 			if iv.Hi == nil || iv.Hi.Sign() > 0 {
 				bad = append(bad, fmt.Sprintf("the marker's deadline is %s, without the period the caller passed, on a path where that period can be positive (%s): a configured period is replaced by the default and the key is re-probed, with the burst queued behind the probe, long before the configured period ends, on path [%s]", prettyTerm(e.Val), iv, condString(pr.Conds)))
 			}
@@ -2063,10 +2074,10 @@ func rulePeriodKept(c *Ctx) {
 				}
 				convStores++
 				v := stripConv(st.Val)
-				if _, isPhi := v.(*ssa.Phi); isPhi {
+				if phi, isPhi := v.(*ssa.Phi); isPhi && !phiOfZeroOrParsed(phi) {
 					bad = append(bad, fmt.Sprintf("%s: the converter stores a period chosen among several values: a substitute put in here (1 for 'less than a second', say) also replaces the unset period 0, which is what selects the marker's default", c.P.pos(st.Pos())))
 				}
-				if _, isConst := v.(*ssa.Const); isConst {
+				if k, isConst := v.(*ssa.Const); isConst && !isZeroConst(k) {
 					bad = append(bad, fmt.Sprintf("%s: the converter stores a constant period", c.P.pos(st.Pos())))
 				}
 			}
@@ -2466,4 +2477,24 @@ func ruleProxyErrors5xx(c *Ctx) {
 	}
 	sort.Strings(bad)
 	c.check(len(bad) == 0, "proxy-errors-5xx", funcName(proxy), c.P.pos(proxy.Pos()), fmt.Sprintf("%d errors made up in the proxy step, all with a 5xx status", n), strings.Join(uniq(bad), " || "), n)
+}
+
+// phiOfZeroOrParsed: every incoming value is the constant 0 ("not set": the
+// marker's default applies) or a computed value; no other constant is put in.
+func phiOfZeroOrParsed(phi *ssa.Phi) bool {
+	for _, e := range phi.Edges {
+		e = stripConv(e)
+		if k, ok := e.(*ssa.Const); ok {
+			if !isZeroConst(k) {
+				return false
+			}
+			continue
+		}
+		if p2, ok := e.(*ssa.Phi); ok && p2 != phi {
+			if !phiOfZeroOrParsed(p2) {
+				return false
+			}
+		}
+	}
+	return true
 }
